@@ -414,7 +414,8 @@ struct timespec* sentTime) {
       }
     }
     clockGettime(&m_lastSynReceiveTime);
-    return setState(bs_ready, m_state == bs_skip || m_remainLockCount > 0 ? result : RESULT_ERR_SYN);
+    return setState(bs_ready, m_state == bs_skip || (m_remainLockCount > 0 && m_currentRequest == nullptr)
+      ? result : RESULT_ERR_SYN);
   }
 
   if (sending && m_state != bs_ready) {  // check received symbol for equality if not in arbitration
